@@ -26,6 +26,9 @@ import random
 import shutil
 import sys
 import tempfile
+import warnings
+
+warnings.simplefilter("ignore")          # SyntaxWarning noise from compile() of generated code under test
 
 HERE = os.path.dirname(os.path.abspath(__file__))
 SRC = os.environ.get('YLD_REPO_SRC', '/repo/src')
